@@ -6,7 +6,7 @@ import hashlib, os, re, subprocess, shutil, tempfile
 ROOT = os.path.dirname(os.path.dirname(os.path.dirname(os.path.abspath(__file__))))
 MODELS = os.path.join(ROOT, "models")
 BUILD = os.path.join(ROOT, "build")
-VARS = ("phase", "restored", "keyOut", "finTried", "msgs", "keys")
+VARS = ("phase", "restored", "keyOut", "finTried", "msgs", "keys", "touched")
 
 
 class ModelError(Exception):
@@ -101,7 +101,7 @@ def load():
         if k in E and E[k] != nodes[b]:
             raise ModelError("specification automaton is not deterministic per action label: %s" % (k,))
         E[k] = nodes[b]
-    init = ("Fresh", False, 0, False, 0, 0)
+    init = ("Fresh", False, 0, False, 0, 0, False)
     if init not in nodes.values():
         raise ModelError("initial state missing from the TLC graph")
     info["model_states"] = len(set(nodes.values()))
